@@ -147,7 +147,7 @@ class Analyzer:
                     if isinstance(e.slice, ast.Slice):
                         out.add(self._container(e, self.elems[t]))  # x[a:b] of a list: a shallow copy
                     else:
-                        out |= self.elems[t] or {t}
+                        out |= self.elems[t]
                 elif t.startswith('A:'):
                     out.add('E:' + t[2:])
                 else:
@@ -181,7 +181,15 @@ class Analyzer:
             return {self._container(e, et)}
         if isinstance(e, ast.Tuple):
             return {self._tuple(e, [self.tok(x, env, res) for x in e.elts])}
-        if isinstance(e, (ast.DictComp, ast.Dict, ast.JoinedStr, ast.Lambda)):
+        if isinstance(e, ast.Dict):
+            et = set()
+            for x in e.values:
+                et |= self.tok(x, env, res)
+            return {self._container(e, et)}
+        if isinstance(e, ast.DictComp):
+            cur = self._comprehension(e, env, res)
+            return {self._container(e, self.tok(e.value, cur, res))}
+        if isinstance(e, (ast.JoinedStr, ast.Lambda)):
             return {self._fresh(e)}
         if isinstance(e, ast.Starred):
             return self.tok(e.value, env, res)
@@ -263,6 +271,11 @@ class Analyzer:
                 if len(c.args) > 2:
                     out |= argtoks[2]
                 return out
+            if f.id == 'dict' and not c.args:
+                et = set()
+                for t_ in argtoks:
+                    et |= t_
+                return {self._container(c, et)}
             if f.id in ('list', 'tuple', 'sorted', 'reversed', 'iter', 'set', 'frozenset') and len(c.args) >= 1:
                 return {self._container(c, self.elements(argtoks[0]))}
             if f.id == 'enumerate' and c.args:
